@@ -75,7 +75,7 @@ def run(ctx, module="C03Trace"):
         for shape in ("3x1", "1x3", "2x1N3", "1x1"):
             ctx.mc("MC_FaceTopology", f"MC_FaceTopology_{shape}.cfg", workers=8)
     rng = random.Random(ctx.seed * 49979687 + 3)
-    n = 10000 if thorough else 500
+    n = 10000 if thorough else 1200
     cases = [gen_case(rng, k + 1) for k in range(n)]
     recs = ctx.pmap(execute, cases, chunksize=4)
     bad = ctx.validate(module, recs, jvms=16 if thorough else 8, chunk=250)
